@@ -19,7 +19,9 @@ BOUNDS = {
     'quick': 'a committed build of a skeleton program (outputs, created directories, symbolic tree U7), then one refused call: '
              '{build, build_versioned, clean} x {wrong-typed argument in each slot, different build name, cache path is a '
              'directory, cache unreadable: EOFError / OSError / ValueError / zlib.error from gzip+json, document of class '
-             'non-dict / no software / wrong software / cacheFileVersion not None (symbolic int) / missing key}',
+             'non-dict / no software / wrong software / cacheFileVersion not None (symbolic int) / missing key / right software and '
+             'version but one field (createdDirs, rootOperations, funcVersions, operationVersions, buildName, first operation record) '
+             'of the wrong JSON shape (null, number, string, nested list, object, absent)}',
     'thorough': 'the same on top of B.M.B histories (tampered outputs)',
 }
 ASSUMPTIONS = [
@@ -27,7 +29,7 @@ ASSUMPTIONS = [
     'class of gzip.open+json.load; replays write real bytes of that class (truncated stream, non-gzip bytes, gzip of '
     'non-JSON text, corrupted deflate stream)',
 ]
-WITNESSES = {'quick': ['refused', 'refused-clean', 'refused-unreadable-cache'], 'thorough': ['refused']}
+WITNESSES = {'quick': ['refused', 'refused-clean', 'refused-unreadable-cache', 'refused-wrong-shape'], 'thorough': ['refused']}
 
 READ_ERRORS = ['EOFError', 'OSError', 'ValueError', 'zlib.error']
 DOC_CLASSES = ['non-dict', 'no-software', 'wrong-software', 'newer-version', 'missing-version-key']
@@ -43,6 +45,7 @@ def families(tier):
         {'name': 'cache-dir', 'params': {}, 'weight': 1},
         {'name': 'read-error', 'params': {}, 'weight': 2},
         {'name': 'doc-class', 'params': {}, 'weight': 2},
+        {'name': 'doc-shape', 'params': {}, 'weight': 2},
         {'name': 'bytes', 'params': {}, 'weight': 2},
     ]
     if tier == 'thorough':
@@ -97,6 +100,11 @@ def corrupt(eng, w, how, what):
         n.payload = d
 
 
+SHAPE_VALUES = {'null': None, 'int': 5, 'str': 'x', 'nested': [[1]], 'dict': {'a': 1}, 'absent': None, 'notype': None, 'nosub': None}
+SHAPE_CLASSES = ['shape:%s:%s' % (k, b) for k in ('createdDirs', 'rootOperations', 'funcVersions', 'operationVersions', 'buildName')
+                 for b in ('null', 'int', 'str', 'nested', 'dict', 'absent')] + ['shape:op:%s' % b for b in ('int', 'null', 'notype', 'nosub')]
+
+
 def mutate_doc(eng, doc, what):
     if what == 'non-dict':
         return [doc]
@@ -109,6 +117,24 @@ def mutate_doc(eng, doc, what):
         doc['cacheFileVersion'] = v
     elif what == 'missing-version-key':
         doc.pop('cacheFileVersion', None)
+    elif what.startswith('shape:'):
+        # valid gzip, valid JSON, right software and version, wrong shape of one field
+        _, key, bad = what.split(':')
+        val = SHAPE_VALUES[bad]
+        if key == 'op':
+            # the first root operation record itself
+            ops = doc.get('rootOperations') or []
+            if ops:
+                if bad == 'notype':
+                    ops[0].pop('type', None)
+                elif bad == 'nosub':
+                    ops[0]['suboperations'] = None
+                else:
+                    ops[0] = val
+        elif bad == 'absent':
+            doc.pop(key, None)
+        else:
+            doc[key] = val
     return doc
 
 
@@ -293,6 +319,9 @@ def harness(eng, fam, P):
         elif fam == 'read-error':
             what = READ_ERRORS[eng.choose('err', len(READ_ERRORS))]
             corrupt(eng, w, 'read-error', what)
+        elif fam == 'doc-shape':
+            what = SHAPE_CLASSES[eng.choose('shape', len(SHAPE_CLASSES))]
+            corrupt(eng, w, 'doc', what)
         else:
             what = DOC_CLASSES[eng.choose('doc', len(DOC_CLASSES))]
             corrupt(eng, w, 'doc', what)
@@ -312,12 +341,19 @@ def harness(eng, fam, P):
         if fam == 'cache-dir' and api == 'clean':
             # clean on a directory path: refused as well (IsADirectoryError from reading it)
             pass
+        if out[0] == 'returned' and fam == 'doc-shape':
+            # a wrong shape the reader happens to tolerate (e.g. a string where a list of strings is expected) is not a
+            # refusal: nothing to assert
+            eng.note('shape-tolerated')
+            return
         if out[0] == 'returned':
             # not a refusal in this configuration: nothing to assert (e.g. clean with build_name None)
             eng.check('C15.not-refused', False, sig, info={'api': api, 'case': what})
         eng.witness('refused')
         if api == 'clean':
             eng.witness('refused-clean')
+        if fam == 'doc-shape':
+            eng.witness('refused-wrong-shape')
         if fam in ('read-error', 'doc-class'):
             eng.witness('refused-unreadable-cache')
         eng.check('C15.user-function-called', not invoked, sig)
